@@ -19,10 +19,45 @@ def add_failure(out, kind, what, inp, expected, got, confirmed=True, sig=None):
         _add_failure(out, kind, what, inp, expected, got, confirmed=confirmed, sig=sig, maxkeep=400)
 
 PROP = "C08"
-PROPS_FILES = ["CogentModel/Props/C08.lean", "CogentModel/Props/C08FMap.lean"]
-LEAN_TARGETS = ["CogentModel.Props.C08", "CogentModel.Props.C08FMap"]
+
+
+def generate(ctx):
+    """translator tie: re-translate the pure span algebra of core/location.py (_norm_index, _norm_slice, span_and_span,
+    the Span / SpanI / _LostSpan methods, FeatureMap.__mul__/__truediv__/__add__/without_gaps/get_coordinates) from the
+    CURRENT source of the checked tree (VERIF_REPO is honoured through harness.common.SRC) into Gen/C08Span.lean;
+    Props/C08Gen.lean then proves every generated definition equal to the hand model for all arguments"""
+    import json
+    import sys
+
+    from .common import LEAN, SRC, VERIF
+
+    if str(VERIF) not in sys.path:
+        sys.path.insert(0, str(VERIF))
+    from translator import c08_span2lean as tr
+
+    gen_file = LEAN / "CogentModel" / "Gen" / "C08Span.lean"
+    lean, info, problems = tr.translate(SRC)
+    ctx.notes.append(f"c08_span2lean: source tree {SRC}; statements translated {json.dumps(info)}")
+    if problems or lean is None:
+        # the last good generated file is kept so that the rest of the check still runs; the run is reported as broken
+        ctx.notes.append("c08_span2lean: translation problems -> Gen/C08Span.lean left as it was (stale)")
+        return [f"c08_span2lean: {p}" for p in problems]
+    if tr.write_if_changed(gen_file, lean):
+        ctx.notes.append("Gen/C08Span.lean was rewritten (python source differs from the last generated text)")
+    return []
+# Props/C08Gen.lean: the definitions GENERATED from the current python source (Gen/C08Span.lean) equal the hand model;
+# Props/C08Ops.lean: set-theoretic meaning of the span predicates and FeatureMap + * / without_gaps
+PROPS_FILES = ["CogentModel/Props/C08.lean", "CogentModel/Props/C08FMap.lean", "CogentModel/Props/C08Ops.lean",
+               "CogentModel/Props/C08Gen.lean"]
+LEAN_TARGETS = ["CogentModel.Props.C08", "CogentModel.Props.C08FMap", "CogentModel.Props.C08Ops", "CogentModel.Props.C08Gen"]
 DRIVER = "drv_c08"
 TRUSTED = [
+    "translator/c08_span2lean.py (python ast -> Lean for the pure span algebra: _norm_index, _norm_slice, span_and_span, Span / "
+    "SpanI / _LostSpan methods, FeatureMap + * / without_gaps get_coordinates; conventions S1-S6 in its header): the output "
+    "Gen/C08Span.lean is proved equal to the hand models for all arguments (Props/C08Gen.lean, re-checked against freshly "
+    "generated text every run)",
+    "hand-written model lean/CogentModel/Model/FMapOps.lean (span predicates, Span[int], * / reversed_relative_to, FeatureMap "
+    "+ * / without_gaps get_coordinates start end get_covering_span), also tied by the `spanops` / `fmops` correspondence",
     "hand-written models lean/CogentModel/Model/IndelMap.lean (IndelMap, coords_* helpers) and Model/FMap.lean "
     "(FeatureMap/Span algebra), tied by exhaustive (all gap layouts of length<=8 x all intervals incl. None/negative/"
     "out-of-range) + random correspondence against cogent3.core.location",
@@ -591,6 +626,10 @@ def correspondence(ctx):
 
     # ---- 6. FeatureMap algebra ---------------------------------------------------
     _fmap_correspondence(ctx, out, rng)
+    # ---- 6b. span predicates / slicing / scaling / mirroring, FeatureMap + * / without_gaps get_covering_span
+    from .c08_ops import ops_correspondence
+
+    ops_correspondence(ctx, out, ctx.subrng("ops"))
 
     # ---- 7. the Lean spec functions against CPython string semantics -------------
     sreqs, swant = [], []
@@ -1167,6 +1206,8 @@ def _spec_add3(out, s, t, u, ma, mb, mc):
 
 def _spec_fmap(out, rng, count):
     """feature-map clauses: set-theoretic meaning on random maps (forward, negative-strand and mixed span lists)"""
+    from .c08_ops import check_fm_ops, check_span_ops
+
     for _ in range(count):
         kind = rng.choice(FM_KINDS)
         spans, pl = _rand_fm(rng, kind)
@@ -1184,6 +1225,16 @@ def _spec_fmap(out, rng, count):
             indexes.append(dict(slice=[rng.choice(vals), rng.choice(vals)]))
         bump(out, "fmap_kind", kind)
         _check_fmap(out, spans, pl, indexes)
+        # + * / without_gaps get_covering_span of the map; predicates / slicing / scaling / mirroring of one of its spans
+        other = [x for x in _rand_fm(rng, rng.choice(FM_KINDS))[0] if len(x) == 1 or x[1] <= pl]
+        check_fm_ops(out, spans, pl, other, _cover_real)
+        real = [s for s in spans if len(s) > 1]
+        if real and rng.random() < 0.15:
+            s, e, r = rng.choice(real)
+            os_ = rng.randint(max(s - 2, 0), e + 1)
+            oe = os_ + rng.choice([0, 1, 2, e - s, e - s + 1])
+            check_span_ops(out, s, e, r, os_, oe, sorted({s - 1, s, s + 1, e - 1, e, e + 1, (s + e) // 2}))
+            bump(out, "span_ops", ("rev" if r else "fwd") + (":empty" if s == e else ""))
 
 
 def _check_fmap(out, spans, pl, indexes):
@@ -1617,7 +1668,16 @@ def _replay_into_maps(out, inp):
     import cogent3
 
     s = inp.get("s")
+    if "span" in inp and "other" in inp:
+        from .c08_ops import check_span_ops
+
+        (a, b, r), (c, d) = inp["span"], inp["other"]
+        check_span_ops(out, a, b, r, c, d, sorted({a - 1, a, a + 1, b - 1, b, b + 1, (a + b) // 2}))
+        return
     if "spans" in inp:
+        from .c08_ops import check_fm_ops
+
+        check_fm_ops(out, inp["spans"], inp["pl"], inp.get("other"), _cover_real)
         ix = inp.get("index")
         if isinstance(ix, list):
             # a bare list of index spans
